@@ -300,6 +300,9 @@ func c12Twins(c *fw.Ctx) {
 }
 
 func c12Run(c *fw.Ctx) {
+	{
+		interfRun(c, "C12") // statement-level interleavings of operations on disjoint objects (subprocess)
+	}
 	c12Twins(c)
 	subs := c12Subjects()
 	base := c12Values()
